@@ -113,6 +113,7 @@ def dispatch (op : String) (args : List String) : String :=
   | "gparse" => AlgoRun.handleParse args
   | "gtosubtree" | "gcutenter" | "gcutdepth" | "gcutleave" | "gcutleaveset" | "gcuttype" | "gcutorder" => AlgoRun.handleCut op args
   | "gcuttip" => AlgoRun.handleShortTip op args
+  | "gsubimpl" => AlgoRun.handleSubImpl args
   | "gsingleroot" => AlgoRun.handleSingleRoot args
   | "gnearest" => AlgoRun.handleNearest args
   | "greadfix" => AlgoRun.handleReadFix args
